@@ -292,6 +292,16 @@ Theorem C15_example_complete : ShapesPresent ex_c /\ BlocksComplete ex_c.
 Proof. exact (conj ex_shapes ex_complete). Qed.
 Print Assumptions C15_example_complete.
 
+(* stores that come from read() have RF rows WITHOUT a type entry: remove_duplicates passes the empty tag for them,
+   get_block decodes them as 'undefined' (tag_u) before and after; such a store satisfies every hypothesis above *)
+Theorem C15_untyped_rf_example :
+  StoreWf ex_untyped /\ RefsExist ex_untyped /\ TagsAgree rnd_shape_key rnd_grad_key rnd_rf_key ex_untyped /\
+  lib_type (rf_l ex_untyped) 1 = None /\
+  rf_use_of (decode ex_untyped 5) = Some (Some tag_u) /\
+  (exists c', seq_dedup ex_untyped = Some c' /\ lib_type (rf_l c') 1 = None /\ rf_use_of (decode c' 5) = Some (Some tag_u)).
+Proof. exact untyped_rf_example. Qed.
+Print Assumptions C15_untyped_rf_example.
+
 (* ---- (e) copy vs in place ---------------------------------------------------------------------------- *)
 Theorem C15_dedup_copy_leaves_original : forall cache_on abs_fix r1 r2 r3 r4 s,
   fst (step cache_on abs_fix r1 r2 r3 r4 s DedupCopy) = s.
